@@ -4,6 +4,7 @@ package generator
 
 import (
 	"math"
+	"strings"
 
 	"github.com/atombender/go-jsonschema/internal/zzvrt"
 	"github.com/atombender/go-jsonschema/pkg/schemas"
@@ -184,6 +185,24 @@ func HarnessL3() {
 	}
 	zzvrt.Check("C01.L3.emitted-code-compiles", true)
 	zzvrt.Check("C01.L3.gofmt-stable", zzvrt.S2FmtStable(h))
+	if ps.kind == "enum-string" && !cfg.OnlyModels {
+		// C08: one typed constant per listed value, whose value is that string
+		consts := zzvrt.StringConsts(src)
+		all := true
+		for _, v := range ps.enumS {
+			n := 0
+			for _, c := range consts {
+				parts := strings.SplitN(c, "|", 3)
+				if len(parts) == 3 && parts[1] != "" && parts[2] == v {
+					n++
+				}
+			}
+			if n != 1 {
+				all = false
+			}
+		}
+		zzvrt.Check("C08.L3.one-typed-constant-per-listed-string", all)
+	}
 	// Recorded finding: with --min-sized-ints and bounds that admit no integer at all, a bound
 	// literal may lie outside the (arbitrarily narrow) type that was chosen.
 	emptyDev := zzvrt.Dev{Name: "minsized-literal-overflow-on-empty-interval", Cond: false}
